@@ -1136,7 +1136,7 @@ func genConcFault(prop string, seed uint64, g *gen) *Case {
 		at := r.intn(len(c.Clients[ci]) + 1)
 		c.Clients[ci] = append(c.Clients[ci][:at:at], Op{K: "close"})
 	}
-	if r.p(0.3) || prop == "C11" {
+	if r.p(0.3) || prop == "C11" || prop == "C09" {
 		// Close racing a transaction commit that is being retried: client 0
 		// commits an explicit transaction while manifest syncs fail, another
 		// client sleeps a little and closes the DB
